@@ -242,6 +242,14 @@ func Walk(v Visitor, node ast.Node) {
 			Walk(v, child)
 		}
 
+	case *ast.StructType:
+		for _, field := range n.Fields {
+			for _, ident := range field.Idents {
+				Walk(v, ident)
+			}
+			Walk(v, field.Type)
+		}
+
 	case *ast.Switch:
 		Walk(v, n.Init)
 		Walk(v, n.Expr)
@@ -256,6 +264,10 @@ func Walk(v Visitor, node ast.Node) {
 
 	case *ast.TypeAssertion:
 		Walk(v, n.Expr)
+
+	case *ast.TypeDeclaration:
+		Walk(v, n.Ident)
+		Walk(v, n.Type)
 
 	case *ast.TypeSwitch:
 		Walk(v, n.Init)
